@@ -317,10 +317,24 @@ type exec struct {
 	log  core.LogHasher
 	stop bool
 	// survey: keep going after a violation (development aid: list every failing type)
-	survey bool
+	survey  bool
+	prop    string          // the property under check
+	foreign map[string]bool // findings of the other property already recorded
 }
 
 func (x *exec) viol(prop, sig, detail string) {
+	// a finding of the other property (C04 vs C05) is recorded once and the run goes on, so that it
+	// cannot hide later records from the check of the property under check
+	if x.prop != "" && prop != x.prop {
+		if x.foreign == nil {
+			x.foreign = map[string]bool{}
+		}
+		if !x.foreign[prop+sig] {
+			x.foreign[prop+sig] = true
+			x.res.Violate(prop, prop+"/codec/"+sig, detail, x.step)
+		}
+		return
+	}
 	x.res.Violate(prop, prop+"/codec/"+sig, detail, x.step)
 	x.stop = !x.survey
 }
@@ -360,7 +374,10 @@ func Execute(cfg *Config, units []Unit, opt core.Options) *core.Result {
 	cj, _ := json.Marshal(cfg)
 	uj, _ := json.Marshal(units)
 	res.Config, res.Script = cj, uj
-	x := &exec{res: res, spec: cfg.BuildSpec(), survey: opt.Params["survey"] == "1"}
+	x := &exec{res: res, spec: cfg.BuildSpec(), survey: opt.Params["survey"] == "1", prop: opt.Property}
+	if x.survey {
+		x.prop = ""
+	}
 	x.sch = S{x.spec}
 	for i, u := range units {
 		if x.stop {
